@@ -234,16 +234,36 @@ def angles_case(ctx, LP, rng, n):
     d = ctx.driver()
     ph, pat = gens.phases(rng, n)
     which = str(rng.choice(["angles", "angles", "conj"])) if n <= 30 else "angles"
+    # the phase list in the containers and number types a caller may hold it in; whole-number phases (legal reals) also as
+    # Python ints / an integer ndarray
+    form = str(rng.choice(["list", "list", "tuple", "ndarray", "int-list", "int-ndarray", "mixed-int-float"]))
+    pharg = ph
+    if form in ("int-list", "int-ndarray", "mixed-int-float"):
+        ph = [float(int(rng.integers(-4, 5))) for _ in range(n)]
+        if not any(ph):
+            ph[0] = 1.0
+        pat = "whole-numbers"
+        pharg = [int(x) for x in ph]
+        if form == "int-ndarray":
+            pharg = np.array(pharg)
+        elif form == "mixed-int-float":
+            ph[-1] = 0.5
+            pharg = pharg[:-1] + [0.5]
+    elif form == "tuple":
+        pharg = tuple(ph)
+    elif form == "ndarray":
+        pharg = np.array(ph)
+    ctx.count("phase-container:" + form)
     ctx.count("phases:" + pat)
     ctx.count("builder:" + which)
     if which == "angles":
-        py = py_call(lambda: LP.LAlg.unitary_from_angles(ph))
+        py = py_call(lambda: LP.LAlg.unitary_from_angles(pharg))
         mo = d.ask("la.fromangles %d %s" % (bits_for(n), rl(F(x) for x in ph)))
     else:
-        py = py_call(lambda: LP.LAlg.unitary_from_conjugations(ph))
+        py = py_call(lambda: LP.LAlg.unitary_from_conjugations(pharg))
         mo = d.ask("la.fromconj %d %s" % (bits_for(n), rl(F(x) for x in ph)))
     ctx.case([which, ph], n >= 2, {"builder": which, "n": n, "pattern": pat, "phases": ph[:5]})
-    replay = {"op": which, "phases": ph}
+    replay = {"op": which, "phases": ph, "container": form}
     if py[0] != "ok" or mo.startswith("err:"):
         ctx.violation(which + ":raises", "%s raised / refused: python %s, model %s" % (which, str(py)[:100], mo[:40]), replay)
         return
